@@ -624,7 +624,7 @@ class C03Prop(core.Prop):
         "ReachTheTargetSim deactivates runners by hand (agent.active = False with positive health): judged by "
         "WInvWeak (zero health -> inactive) instead of the 'built-in components alone' clause active <-> health > 0",
         "stream sim: the example simulations as a runtime monitor (no model outcome); the five classes built from built-in "
-        "components are ALSO modelled (stream example-modelled); ReachTheTargetSim stays a monitor only",
+        "components are ALSO modelled (stream example-modelled); ReachTheTargetSim is modelled too (Model/Reach.lean) but its steps are judged by WInvWeak at run time",
     ]
 
     def __init__(self):
